@@ -463,7 +463,7 @@ impl FatVolume {
                                 first_dir_block_num = self.cluster_to_block(c);
                                 Some(c)
                             }
-                            _ => None,
+                            Err(e) => return Err(e),
                         };
                     } else {
                         current_cluster = None;
@@ -527,7 +527,7 @@ impl FatVolume {
                             first_dir_block_num = self.cluster_to_block(c);
                             Some(c)
                         }
-                        _ => None,
+                        Err(e) => return Err(e),
                     };
                 }
                 // We ran out of clusters in the chain, and apparently we weren't
@@ -723,7 +723,8 @@ impl FatVolume {
                         first_dir_block_num = self.cluster_to_block(n);
                         Some(n)
                     }
-                    _ => None,
+                    Err(Error::EndOfFile) => None,
+                    Err(e) => return Err(e),
                 };
             } else {
                 current_cluster = None;
@@ -769,7 +770,8 @@ impl FatVolume {
             }
             current_cluster = match self.next_cluster(block_cache, cluster) {
                 Ok(n) => Some(n),
-                _ => None,
+                Err(Error::EndOfFile) => None,
+                Err(e) => return Err(e),
             };
         }
         Ok(())
@@ -823,7 +825,8 @@ impl FatVolume {
                                 first_dir_block_num = self.cluster_to_block(n);
                                 Some(n)
                             }
-                            _ => None,
+                            Err(Error::EndOfFile) => None,
+                            Err(e) => return Err(e),
                         };
                     } else {
                         current_cluster = None;
@@ -851,7 +854,8 @@ impl FatVolume {
                     }
                     current_cluster = match self.next_cluster(block_cache, cluster) {
                         Ok(n) => Some(n),
-                        _ => None,
+                        Err(Error::EndOfFile) => None,
+                        Err(e) => return Err(e),
                     }
                 }
                 Err(Error::NotFound)
@@ -939,7 +943,8 @@ impl FatVolume {
                                 first_dir_block_num = self.cluster_to_block(n);
                                 Some(n)
                             }
-                            _ => None,
+                            Err(Error::EndOfFile) => None,
+                            Err(e) => return Err(e),
                         };
                     } else {
                         current_cluster = None;
@@ -976,7 +981,8 @@ impl FatVolume {
                     // Find the next cluster
                     current_cluster = match self.next_cluster(block_cache, cluster) {
                         Ok(n) => Some(n),
-                        _ => None,
+                        Err(Error::EndOfFile) => None,
+                        Err(e) => return Err(e),
                     }
                 }
                 // Ok, give up
